@@ -161,6 +161,18 @@ CHECKS = {
              "content models, /documentation and /testcases placements, include/noinclude template bodies).",
         note=TRUST + "lxml/bz2 and _template_to_body are glue under the diff; namespace table regenerated from data/en.",
         ref="DESIGN.md section 4 C12"),
+    "C09": dict(
+        technique="Coq proof (footprint theorem: history independence for any processing function respecting the field footprint) over field sets regenerated from the sources + history oracle",
+        text="Theorem c09_history_independent (generic, for every history) and c09_every_written_field_is_accounted_for: the "
+             "fields that translate/fields.py finds written during processing in the current sources are each reset by "
+             "start_page, re-initialised by the parse prologue, or on an explicit justified list - a new page-to-page mutable "
+             "field breaks the theorem. Histories (all orders/repetitions to length 3 over 3 pages, random to 12; parse/expand "
+             "steps under 7 option sets; pages invoking 13 state-mutating Lua modules; another context with extension_tags "
+             "created first) are run on one context and every page's tree, expansion and messages compared with a fresh "
+             "context on a copy of the database.",
+        note=TRUST + "the footprint hypotheses (no hidden global state; justified fields not read) are assumptions exercised by "
+             "the oracle; Lua-internal sharing is not modelled (two known findings).",
+        ref="DESIGN.md section 4 C09"),
 }
 
 NOT_YET = "check not built yet in this round (planned, see DESIGN.md section 8)"
